@@ -2,6 +2,8 @@ SPECIFICATION SimSpec
 CONSTANTS
   WorkerCpus <- S2_Workers
   WorkerGroup <- S2_Groups
+  WorkerLife <- S2_Life
+  MaxTicks = 0
   Menu <- S2_Menu
   OpenJobs <- S2_Open
   Classes <- S2_Classes
